@@ -152,12 +152,16 @@ def equiv(args):
         if not ok:
             print(tail)
             return 1
-    run_isolated(sid, d, meta, checks, tier)
+    exp = [c for c in meta.get('expected_alarm', []) if c not in checks]
+    run_isolated(sid, d, meta, checks + exp, tier)
+    meta = json.load(open(os.path.join(d, 'meta.json')))
     bad = [c for c in checks if meta['checks'][c]['exit'] != 0]
+    quiet = [c for c in exp if meta['checks'][c]['exit'] != 1]
     if bad:
         print('FALSE ALARM on %s: %s' % (sid, bad))
-        return 1
-    return 0
+    if quiet:
+        print('EXPECTED ALARM MISSING on %s: %s' % (sid, quiet))
+    return 1 if (bad or quiet) else 0
 
 
 def run_isolated(sid, d, meta, checks, tier):
@@ -174,7 +178,7 @@ def run_isolated(sid, d, meta, checks, tier):
             codes = sorted(set(l.strip().split(':')[0].split(' ')[0] for l in o.splitlines() if l.startswith('  C')))
             out[c] = {'tier': tier, 'exit': rc, 'codes': codes, 'wall_s': round(time.time() - t0, 1), 'isolated': True}
             print('%s %s exit=%d %s %.0fs' % (sid, c, rc, codes, time.time() - t0), flush=True)
-            if rc == 2 or (rc != 0 and '/equiv/' in d):
+            if rc == 2 or (rc != 0 and '/equiv/' in d and c not in meta.get('expected_alarm', [])):
                 print('\n'.join(l[:400] for l in o.splitlines() if l.startswith('  C') or 'VIOLATION' in l or 'HARNESS' in l or 'error' in l)[-3000:])
     finally:
         shutil.rmtree(scr, ignore_errors=True)
